@@ -140,6 +140,10 @@ func NewPool(ctx context.Context, opt Option) (p *Pool) {
 
 // Start underlying workers.
 func (p *Pool) Start() {
+	// a concurrent Stop must not reach wg.Wait before the workers are accounted for
+	p.submitLock.RLock()
+	defer p.submitLock.RUnlock()
+
 	if atomic.CompareAndSwapUint32(&p.state, 0, 1) {
 		numWorker := p.opt.NumberWorker
 
